@@ -451,13 +451,39 @@ var flagBadArgPool = []string{
 	"--usage-report-secret=", "--config=",
 }
 
+// non-boolean flags (string / int typed) and boolean flags of `gateway static-mode`
+var flagNonBool = []string{"gateway-ctlr-name", "gatewayclass", "gateway", "config", "service", "metrics-port", "health-port",
+	"leader-election-lock-name", "usage-report-secret", "usage-report-endpoint", "usage-report-resolver",
+	"usage-report-client-ssl-secret", "usage-report-ca-secret"}
+var flagBool = []string{"update-gatewayclass-status", "metrics-disable", "metrics-secure-serving", "health-disable",
+	"leader-election-disable", "product-telemetry-disable", "gateway-api-experimental-features", "nginx-plus",
+	"usage-report-skip-verify", "snippets-filters"}
+
+// every spelling strconv.ParseBool accepts, and near misses; as the VALUE of a non-boolean flag they must still be
+// reported as "user-defined" (several are legal resource names / hostnames, so the flag really gets set)
+var boolLooking = []string{"1", "0", "t", "f", "true", "false", "T", "F", "TRUE", "FALSE", "True", "False"}
+var boolNearMiss = []string{"yes", "no", "on", "off", "01", "tRuE", "truee", "t1", "-1", "y"}
+
+func boolishArg(r *rng.R) string {
+	switch r.Intn(4) {
+	case 0: // boolean flag, non-canonical spelling (pflag canonicalises through strconv.FormatBool)
+		return "--" + flagBool[r.Intn(len(flagBool))] + "=" + boolLooking[r.Intn(len(boolLooking))]
+	case 1:
+		return "--" + flagNonBool[r.Intn(len(flagNonBool))] + "=" + boolNearMiss[r.Intn(len(boolNearMiss))]
+	default:
+		return "--" + flagNonBool[r.Intn(len(flagNonBool))] + "=" + boolLooking[r.Intn(len(boolLooking))]
+	}
+}
+
 func (e *emitter) runFlags(r *rng.R, gw string, n int) {
 	var in strings.Builder
 	var cases [][]string
 	for i := 0; i < n; i++ {
 		var args []string
 		for k := r.Intn(7); k > 0; k-- {
-			if r.Chance(1, 12) {
+			if r.Chance(1, 4) {
+				args = append(args, boolishArg(r))
+			} else if r.Chance(1, 12) {
 				args = append(args, flagBadArgPool[r.Intn(len(flagBadArgPool))])
 			} else {
 				args = append(args, flagArgPool[r.Intn(len(flagArgPool))])
@@ -465,6 +491,10 @@ func (e *emitter) runFlags(r *rng.R, gw string, n int) {
 		}
 		if i == 0 {
 			args = nil
+		}
+		if i >= 1 && i <= len(flagNonBool) {
+			// sweep: one non-boolean flag set to a bool-looking value (rotating through the spellings)
+			args = []string{"--" + flagNonBool[i-1] + "=" + boolLooking[(i+int(r.U64()%6))%6]}
 		}
 		cases = append(cases, args)
 		if len(args) == 0 {
@@ -516,7 +546,7 @@ func (e *emitter) runFlags(r *rng.R, gw string, n int) {
 		if f["perr"] != "-" {
 			kind = "flags-parse-error"
 		}
-		e.line("K "+kind+fmt.Sprintf("/args=%d", len(cases[i])), "M G flags="+f["flags"], "O "+obs, "J G flags="+f["flags"]+" "+obs)
+		e.line("K "+kind+fmt.Sprintf("/args=%d", len(cases[i])), "M G flags="+f["flags"], "O "+obs, "J G flags="+f["flags"]+" "+obs+" args="+hexList(cases[i]))
 	}
 }
 
